@@ -27,14 +27,14 @@ def lib_class(cls):
     H, P = _mods()
     return {"Point": P.Point, "PointPair": P.PointPair, "Polygon": P.Polygon, "Transformation": P.Transformation,
             "HPoint": H.Point, "Geodesic": H.Geodesic, "Segment": H.Segment, "Tangent": H.TangentVector,
-            "HPolygon": H.Polygon, "Isometry": H.Isometry, "Horosphere": H.Horosphere, "HoroArc": H.HorosphereArc}[cls]
+            "HPolygon": H.Polygon, "Isometry": H.Isometry, "Horosphere": H.Horosphere, "HoroArc": H.HorosphereArc, "Subspace": H.Subspace}[cls]
 
 
 UNIT_RANK = {"Point": 1, "HPoint": 1}
 AUX_RANK = {"Polygon": 3, "HPolygon": 3, "Segment": 2, "Tangent": 2}
 PROJ = {"Point", "PointPair", "Polygon", "Transformation"}
 ALL_CLASSES = ["Point", "HPoint", "PointPair", "Geodesic", "Segment", "Tangent", "Polygon", "HPolygon",
-               "Transformation", "Isometry", "Horosphere", "HoroArc"]
+               "Transformation", "Isometry", "Horosphere", "HoroArc", "Subspace"]
 
 
 def tclass(cls):
@@ -55,6 +55,7 @@ class Tables:
         self.gram = {}      # dim -> K x K x 3 integer array
         self.sl2 = None
         self.sl2c = None
+        self.converts = []
         self.eig = {}       # dim -> dict(lam, mu, mats): transformations with a repeated eigenvalue
         self.K = None
         self.whole = {}
@@ -95,6 +96,8 @@ def absorb_units(tabs, dim, r):
         tabs.gram[o["dim"]] = np.array(o["gram"], dtype=float)
     for o in _prefixed(r.stdout, "EIG "):
         tabs.eig[o["dim"]] = dict(lam=float(o["lam"]), mu=float(o["mu"]), mats=[np.array(m, dtype=float) for m in o["mats"]])
+    for o in _prefixed(r.stdout, "CONVERTS "):
+        tabs.converts = sorted(tuple(x) for x in o)
     for o in _prefixed(r.stdout, "SL2C "):
         tabs.sl2c = [np.array([[complex(e[0], e[1]) for e in row] for row in m]) for m in o]
     for o in _prefixed(r.stdout, "SL2 "):
